@@ -32,6 +32,9 @@ pub enum Edit {
     RewriteInputCoordinates,
     /// every transaction removed, header (merkle root included) kept: decodes as a header block
     StripAllTxs,
+    /// last transaction removed AND the header's merkle root rewritten to match, signature kept:
+    /// the root is part of what the creator signed, so the identity must change
+    DropTxAndFixRoot,
     /// a fee-less transaction replaced by a slip-less SPV placeholder carrying its hash (what a
     /// lite block does) inside a block offered to a full node
     SpvPlaceholder,
@@ -99,6 +102,14 @@ pub fn apply(edit: Edit, orig: &Block, donor: Option<&Block>, rng: &mut Rng) -> 
         Edit::FlipSignature => b.signature[rng.below(64) as usize] ^= 1 << rng.below(8),
         Edit::ZeroSignature => b.signature = [0; 64],
         Edit::RewriteInputCoordinates => return None, // built by rewrite_input() with ledger access
+        Edit::DropTxAndFixRoot => {
+            if n < 2 {
+                return None;
+            }
+            b.transactions.pop();
+            let _ = b.generate();
+            b.merkle_root = b.generate_merkle_root(false, false);
+        }
         Edit::StripAllTxs => {
             if n == 0 {
                 return None;
@@ -204,6 +215,7 @@ fn edits(rng: &mut Rng) -> Vec<Edit> {
         Edit::RewriteInputCoordinates,
         Edit::StripAllTxs,
         Edit::SpvPlaceholder,
+        Edit::DropTxAndFixRoot,
     ];
     for k in 0..12 {
         v.push(Edit::SignedField(k));
@@ -223,7 +235,7 @@ fn edit_name(e: Edit) -> String {
 }
 
 fn touches_tx_list(e: Edit) -> bool {
-    matches!(e, Edit::StripAllTxs | Edit::SpvPlaceholder | Edit::RewriteInputCoordinates | Edit::DropTx | Edit::DuplicateTx | Edit::SwapTxs | Edit::ReverseTxs | Edit::AddForeignTx | Edit::MutateTxAmount | Edit::MutateTxData | Edit::ZeroMerkleRootAndDropTx)
+    matches!(e, Edit::DropTxAndFixRoot | Edit::StripAllTxs | Edit::SpvPlaceholder | Edit::RewriteInputCoordinates | Edit::DropTx | Edit::DuplicateTx | Edit::SwapTxs | Edit::ReverseTxs | Edit::AddForeignTx | Edit::MutateTxAmount | Edit::MutateTxData | Edit::ZeroMerkleRootAndDropTx)
 }
 
 fn verification_thread(node: &LNode) -> (VerificationThread, tokio::sync::mpsc::Receiver<ConsensusEvent>) {
@@ -397,6 +409,12 @@ pub async fn run(ctx: &Ctx, rep: &mut Report) {
                             &format!("[gp={}] block {} with edit {} is accepted onto the longest chain", gp, step.id, name),
                             witness.clone(),
                         );
+                    } else if matches!(e, Edit::DropTxAndFixRoot) {
+                        rep.violation(
+                            "C06|clause=content-and-root-rewritten-without-resigning-accepted",
+                            &format!("[gp={}] block {} with its last transaction removed and the header's merkle root rewritten to match (creator signature untouched) is accepted onto the longest chain", gp, step.id),
+                            witness.clone(),
+                        );
                     } else if matches!(e, Edit::SignedField(_)) {
                         rep.violation(
                             &format!("C06|clause=signed-field-edit-accepted|edit={}", name),
@@ -455,7 +473,7 @@ pub async fn run(ctx: &Ctx, rep: &mut Report) {
                 if let Ok((sib, pnode)) = h.b.produce(&mut rng, &parent, &spec).await {
                     h.b.keep_producer(parent, pnode);
                     let sib_bytes = block_bytes(&sib);
-                    for e in [Edit::SwapTxs, Edit::DropTx, Edit::MutateTxAmount, Edit::FlipSignature, Edit::ZeroSignature, Edit::DuplicateTx, Edit::StripAllTxs, Edit::SpvPlaceholder] {
+                    for e in [Edit::SwapTxs, Edit::DropTx, Edit::MutateTxAmount, Edit::FlipSignature, Edit::ZeroSignature, Edit::DuplicateTx, Edit::StripAllTxs, Edit::SpvPlaceholder, Edit::DropTxAndFixRoot] {
                         let edited = match apply(e, &orig, prev_block.as_ref(), &mut rng) {
                             Some(b) => b,
                             None => continue,
